@@ -175,32 +175,47 @@ impl std::fmt::Write for Sink {
     }
 }
 
-// verif: prop=C16 tier=thorough cap=3400 mem=30 bound="hop predicates with ISD any u16, AS above the BGP range (colon-hex) or absent, interfaces Any / Either(x) / Both(i,e): display then parse gives the same predicate" fns="HopPredicate::fmt (Display),HopPredicate::from_str,InterfacesPredicate::{fmt,from_str}" stubs="alloc::fmt::format -> empty string (error messages only)"
-#[kani::proof]
-#[kani::unwind(12)]
-#[kani::stub(alloc::fmt::format, fmt_stub)]
-fn c16_pred_display_parse() {
-    let mut p = any_pred();
-    if let Some(a) = p.asn {
-        kani::assume(a.0 > u32::MAX as u64); // decimal AS numbers: c15_asn_dec_display_parse
-    }
-    if p.asn.is_none() {
-        // the text form has no way to say "no AS but interfaces": `1#2` is not in the grammar
-        p.interfaces = InterfacesPredicate::Any;
-    }
+fn pred_display_parse(p: HopPredicate) {
     let mut s = Sink { b: [0; 40], n: 0 };
     let r = write!(s, "{}", p);
     assert!(r.is_ok());
     let text = unsafe { std::str::from_utf8_unchecked(&s.b[..s.n]) };
     match HopPredicate::from_str(text) {
         Ok(q) => {
-            kani::cover!(matches!(q.interfaces, InterfacesPredicate::Both { .. }), "both-interfaces predicate round-trips");
+            kani::cover!(true, "predicate round-trips");
             assert!(q == p, "hop predicate changed by display -> parse");
         }
         Err(_) => {
             assert!(false, "displayed hop predicate rejected by the parser");
         }
     }
+}
+
+// Composition of the three leaf round trips (ISD: c15_isd_display_parse, AS: c15_asn_*,
+// interfaces: c16_ifaces_display_parse). All three symbolic at once gave no verdict in 57 min at
+// 18 GB; the two slices below (one part symbolic at a time) gave none in 25 min at 16 GB either: the
+// cost is str::splitn with a string pattern (two-way searcher). tier=off: not part of any check.
+// verif: prop=C16 tier=off cap=1500 mem=24 bound="hop predicates with ISD any u16, AS one of {absent, 0, 64512, ff00:0:110, ffff:ffff:ffff}, no interface part: display then parse gives the same predicate" fns="HopPredicate::fmt (Display),HopPredicate::from_str" stubs="alloc::fmt::format -> empty string (error messages only)"
+#[kani::proof]
+#[kani::unwind(12)]
+#[kani::stub(alloc::fmt::format, fmt_stub)]
+fn c16_pred_display_parse_isd_as() {
+    let asn = match kani::any::<u8>() % 5 {
+        0 => None,
+        1 => Some(Asn(0)),
+        2 => Some(Asn(64512)),
+        3 => Some(Asn(0xff00_0000_0110)),
+        _ => Some(Asn(Asn::MAX.0)),
+    };
+    pred_display_parse(HopPredicate { isd: Isd(kani::any()), asn, interfaces: InterfacesPredicate::Any });
+}
+
+// verif: prop=C16 tier=off cap=1500 mem=24 bound="hop predicates 1-ff00:0:110 with interfaces Any / Either(x) / Both(i,e), all u16 values: display then parse gives the same predicate" fns="HopPredicate::fmt (Display),HopPredicate::from_str,InterfacesPredicate::{fmt,from_str}" stubs="alloc::fmt::format -> empty string (error messages only)"
+#[kani::proof]
+#[kani::unwind(12)]
+#[kani::stub(alloc::fmt::format, fmt_stub)]
+fn c16_pred_display_parse_ifaces() {
+    pred_display_parse(HopPredicate { isd: Isd(1), asn: Some(Asn(0xff00_0000_0110)), interfaces: any_ifaces() });
 }
 
 fn fmt_stub(_args: std::fmt::Arguments<'_>) -> String {
